@@ -110,3 +110,77 @@ func RunProbeTask(r *rt.Run) error {
 	fmt.Println("errors:", res.Errors, "stopErr:", res.StopErr)
 	return nil
 }
+
+func init() { rt.Register("c19probedl", RunProbeDeadlock) }
+
+// RunProbeDeadlock: Stop racing with a dying peer while a Snapshot call / a keepalive tick is pending.
+func RunProbeDeadlock(r *rt.Run) error {
+	variant := r.Args[0]
+	var timeout time.Duration
+	if variant == "tick" {
+		timeout = 200 * time.Millisecond
+	}
+	s := newSession(sessOpts{Wants: agent.EdgeType_STREAM, Provides: agent.EdgeType_STREAM, Timeout: timeout})
+	if err := s.srv.Init(nil); err != nil {
+		return err
+	}
+	if variant == "snapwait" {
+		block := make(chan struct{})
+		got := make(chan struct{}, 1)
+		s.h.onReq = func(string) { got <- struct{}{}; <-block }
+		snapDone := make(chan error, 1)
+		go func() { _, err := s.srv.Snapshot(); snapDone <- err }()
+		<-got
+		fmt.Println("snapshot request reached the peer; peer dies without answering")
+		s.toAgent.Break()
+		s.fromAgent.Close()
+		time.Sleep(50 * time.Millisecond)
+		done := make(chan error, 1)
+		go func() { done <- s.srv.Stop() }()
+		select {
+		case err := <-done:
+			fmt.Println("stop returned:", err)
+		case <-time.After(5 * time.Second):
+			fmt.Println("stop HANGS (5s)")
+		}
+		select {
+		case err := <-snapDone:
+			fmt.Println("snapshot returned:", err)
+		case <-time.After(100 * time.Millisecond):
+			fmt.Println("snapshot pending")
+		}
+		return nil
+	}
+	s.toAgent.HoldW()
+	p := edge.NewPointMessage("m", "db", "rp", models.Dimensions{}, models.Fields{"k": int64(1)}, models.Tags{"t": "v"}, time.Unix(1, 0).UTC())
+	ok, err := s.send(p, 5*time.Second)
+	fmt.Println("send", ok, err)
+	s.toAgent.WaitWriter()
+	fmt.Println("writer blocked in Write")
+	snapDone := make(chan error, 1)
+	if variant == "snap" {
+		go func() { _, err := s.srv.Snapshot(); snapDone <- err }()
+		time.Sleep(100 * time.Millisecond)
+	} else {
+		time.Sleep(150 * time.Millisecond) // one tick (timeout/2 = 100ms); the watchdog fires at 200ms
+	}
+	done := make(chan error, 1)
+	go func() { done <- s.srv.Stop() }()
+	time.Sleep(20 * time.Millisecond)
+	s.toAgent.Break()
+	s.fromAgent.Close()
+	fmt.Println("peer died")
+	select {
+	case err := <-done:
+		fmt.Println("stop returned:", err)
+	case <-time.After(5 * time.Second):
+		fmt.Println("stop HANGS (5s)")
+	}
+	select {
+	case err := <-snapDone:
+		fmt.Println("snapshot returned:", err)
+	case <-time.After(100 * time.Millisecond):
+		fmt.Println("snapshot pending")
+	}
+	return nil
+}
